@@ -39,7 +39,7 @@ const (
 	readTimeoutMs    = 600
 	writeTimeoutMs   = 500
 	idleTimeoutMs    = 400
-	connectTimeoutMs = 700
+	connectTimeoutMs = 1500
 )
 
 func runScenario(rigs rigSet, p Params) outcome {
@@ -291,8 +291,8 @@ func genParams(tier string, seed uint64) []Params {
 			p.Len[late] += 7
 			p.Post[late] = 7
 		}
-		p.HoldMs = readTimeoutMs + 300 + r.Intn(500)
-		p.TimeoutMs = 8000
+		p.HoldMs = connectTimeoutMs + 300 + r.Intn(500) // later than every timeout of that instance
+		p.TimeoutMs = 10000
 		out = append(out, p)
 	}
 	if tier == "thorough" {
